@@ -1,5 +1,6 @@
 #![allow(clippy::all)]
 #![allow(dead_code)]
+pub mod circuit;
 pub mod engine;
 pub mod gen;
 pub mod oracle;
